@@ -881,7 +881,9 @@ class ValueNode(SyntaxNodeBase):
             return False
         if self.value is None or self._og_value is None:
             return True
-        if self._type in {float, int}:
+        if self._type == int:
+            return self._print_value != self._og_value
+        if self._type == float:
             return not math.isclose(
                 self._print_value, self._og_value, rel_tol=rel_tol, abs_tol=abs_tol
             )
